@@ -46,6 +46,11 @@ static void sched_point(void);
 #endif
 
 #include "ovni.h"
+#ifdef VERIF_BUFSZ
+/* small staging buffer: the scripts then fill it, so that the automatic flush (and its markers) happens concurrently */
+#undef OVNI_MAX_EV_BUF
+#define OVNI_MAX_EV_BUF (VERIF_BUFSZ)
+#endif
 #include VERIF_OVNI_C
 
 /* ------------------------------------------------------------------ */
@@ -155,6 +160,7 @@ static FILE *(*real_fopen)(const char *, const char *);
 static int (*real_open)(const char *, int, ...);
 static size_t (*real_fread)(void *, size_t, size_t, FILE *);
 static size_t (*real_fwrite)(const void *, size_t, size_t, FILE *);
+static ssize_t (*real_write)(int, const void *, size_t);
 
 __attribute__((constructor)) static void
 resolve(void)
@@ -167,7 +173,11 @@ resolve(void)
 	real_open = dlsym(RTLD_NEXT, "open");
 	real_fread = dlsym(RTLD_NEXT, "fread");
 	real_fwrite = dlsym(RTLD_NEXT, "fwrite");
+	real_write = dlsym(RTLD_NEXT, "write");
 }
+
+/* the flush of a thread's staging buffer: other threads may run while it is written */
+ssize_t write(int fd, const void *b, size_t n) { sched_point(); return real_write(fd, b, n); }
 
 /* the relocation copy loop (fread into a buffer, fwrite out of it) is library code operating on
  * files of several threads in turn: make both halves scheduling points */
@@ -218,6 +228,15 @@ script_full(int i)
 	emit("OHx", &x, 16);
 	uint8_t pay[4] = { (uint8_t) i, 1, 2, 3 };
 	emit("OB.", pay, 4);
+#ifdef VERIF_BUFSZ
+	{
+		/* fills the small buffer: one of these emits flushes it automatically */
+		uint8_t big[16] = { (uint8_t) i, 9, 8, 7, 6, 5, 4, 3, 2, 1, 0, 1, 2, 3, 4, 5 };
+		emit("OB.", big, 16);
+		emit("OB.", big, 16);
+		emit("OB.", big, 16);
+	}
+#endif
 	sched_point();
 	ovni_flush();
 	ovni_attr_set_double("verif.k", (double) (i + 7));
